@@ -43,11 +43,11 @@ Definition s_tnew (n_ : nat) : res (tridiag A) :=
 (* src/tridiagonal.rs : impl < T : Clone + Copy + Zero + Number > Tridiagonal < T > :: fn with_elements *)
 Definition s_with_elements (sub_ : (T A)) (main_ : (T A)) (sup_ : (T A)) (n_ : nat) : res (tridiag A) :=
   let* d1 := usub n_ 1 in
-  let sub_ := (repeat sub_ d1) in
-  let main_ := (repeat main_ n_) in
+  let sub_1 := (repeat sub_ d1) in
+  let main_1 := (repeat main_ n_) in
   let* d2 := usub n_ 1 in
-  let sup_ := (repeat sup_ d2) in
-  Ok (mkT sub_ main_ sup_ n_).
+  let sup_1 := (repeat sup_ d2) in
+  Ok (mkT sub_1 main_1 sup_1 n_).
 
 (* src/tridiagonal.rs : impl < T : Clone + Copy + Zero + Number > Tridiagonal < T > :: fn resize *)
 Definition s_tresize (self_ : (tridiag A)) (n_ : nat) : res (tridiag A) :=
